@@ -85,6 +85,9 @@ Section Machine.
       [commit]: receiving it makes us build a new commitment (holding cell freed, or
       [require_commitment]). *)
   | ORecvRAA (s : secret) (next_point : point) (chain_ok commit sync : bool)
+  (** A ChannelMonitorUpdate that carries no commitment (a payment preimage while the claim waits
+      in the holding cell): [monitor_updating_paused(false, false, false, ..)]. *)
+  | OMonUpdate (sync : bool)
   (** All in-flight ChannelMonitorUpdates completed: [monitor_updating_restored]. *)
   | OMonitorDone
   (** [peer_disconnected] (also what a reload does to the channel). *)
@@ -204,6 +207,7 @@ Section Machine.
                            (cp_next_point s) (Some next_point) (closed s) in
             let s2 := if commit then build_commitment s1 else s1 in
             maybe_restore sync (upd_mon s2 false commit) evs
+    | OMonUpdate sync => maybe_restore sync (upd_mon s false false) []
     | OMonitorDone =>
         if mon_in_progress s then restore s else (s, [])
     | ODisconnect =>
@@ -342,6 +346,7 @@ Arguments p_signed {point} p.
 Arguments OCommit {secret point} sync.
 Arguments ORecvCS {secret point} valid need_cs sync.
 Arguments ORecvRAA {secret point} s next_point chain_ok commit sync.
+Arguments OMonUpdate {secret point} sync.
 Arguments OMonitorDone {secret point}.
 Arguments ODisconnect {secret point}.
 Arguments ORecvReest {secret point} next_local next_remote sec.
